@@ -112,7 +112,7 @@ def make_forest(rng, trunk, forks, tx_prob=0.3):
 
 
 class Run:
-    def __init__(self, mon, world, tips_per_node, edges, rng, batch, schedule, w):
+    def __init__(self, mon, world, tips_per_node, edges, rng, batch, schedule, w, same_host=False):
         import skepticoin.networking.remote_peer as rp
         self.mon, self.world, self.rng, self.w = mon, world, rng, w
         rp.GET_BLOCKS_INVENTORY_SIZE = batch
@@ -125,7 +125,9 @@ class Run:
         self.keep = []
         for i, tips in enumerate(tips_per_node):
             cs, keep = closed_state(world, tips)
-            node = self.net.add_node("n%d" % i, ("10.0.0.%d" % (i + 1), 2412), cs, NullDisk(), nonce=5000 + i)
+            # same_host: all nodes on one host, told apart by port only (a localhost network, peers behind one NAT)
+            addr = ("10.0.0.1", 2412 + i) if same_host else ("10.0.0.%d" % (i + 1), 2412)
+            node = self.net.add_node("n%d" % i, addr, cs, NullDisk(), nonce=5000 + i)
             self.nodes.append(node)
             self.keep.append(keep)
             self.wrap(node)
@@ -377,9 +379,13 @@ def one_run(mon, rng, world, per_node, desc, batch, quick):
     w = {"desc": desc, "topology": topo, "schedule": schedule, "batch": batch,
          "blocks": gen.blocks_hex(world, world.chain.order[1:]),
          "tips_per_node": [[t.hex() for t in tips] for tips in per_node]}
-    run = Run(mon, world, per_node, TOPOLOGIES[nn][topo], rng, batch, schedule, w)
+    same_host = rng.random() < 0.35
+    w["same_host"] = same_host
+    run = Run(mon, world, per_node, TOPOLOGIES[nn][topo], rng, batch, schedule, w, same_host=same_host)
     c = mon.c
     c["runs"] += 1
+    if same_host:
+        c["runs_with_all_nodes_on_one_host"] = c.get("runs_with_all_nodes_on_one_host", 0) + 1
     c["by_topology"][topo] = c["by_topology"].get(topo, 0) + 1
     c["by_schedule"][schedule] = c["by_schedule"].get(schedule, 0) + 1
     if nn == 3:
@@ -425,7 +431,8 @@ def run_shard(spec):
         for k in range(20):          # the schedule is re-sampled: 20 schedules on the recorded scenario
             nn = len(per_node)
             r2 = random.Random(k)
-            run = Run(mon, world, per_node, TOPOLOGIES[nn][w["topology"]], r2, w["batch"], w["schedule"], w)
+            run = Run(mon, world, per_node, TOPOLOGIES[nn][w["topology"]], r2, w["batch"], w["schedule"], w,
+                      same_host=w.get("same_host", False))
             run.phase1(200)
             rounds = run.drain(len(w["blocks"]))
             if run.verdict_sync(rounds):
@@ -470,6 +477,7 @@ def finalize(m, tier):
                    ("transactions_broadcast", c.get("transactions_broadcast", 0), 150),
                    ("extra_block_relays", c.get("extra_block_relays", 0), 50),
                    ("reorganisations_by_sync", c.get("reorganisations_by_sync", 0), 50),
-                   ("relay_calls_recorded", c.get("relay_calls_recorded", 0), 300)],
+                   ("relay_calls_recorded", c.get("relay_calls_recorded", 0), 300),
+                   ("runs_with_all_nodes_on_one_host", c.get("runs_with_all_nodes_on_one_host", 0), 60)],
         "extra": {"bounded_restatement_R_base": R_BASE},
     }
